@@ -14,10 +14,11 @@ Local Open Scope Z_scope.
 
 (* ---- filter match, as the documentation of xmpp_handler_add / xmpp_id_handler_add states it ---- *)
 
-(* the ns filter matches the namespace of the stanza or of one of its direct children; name and type
-   match the top-level element; an absent filter matches everything *)
-Definition stanza_filter_matches (ns name type : option str) (sz : stanza) : Prop :=
-  (ns = None \/ st_ns sz = ns \/ (ns <> None /\ In ns (st_children sz))) /\
+(* the ns filter matches the namespace of the stanza or - for handlers registered through the public API
+   ([user]) - of one of its direct children; library-internal handlers match the element's own namespace
+   only.  name and type match the top-level element; an absent filter matches everything *)
+Definition stanza_filter_matches (user : bool) (ns name type : option str) (sz : stanza) : Prop :=
+  (ns = None \/ st_ns sz = ns \/ (user = true /\ ns <> None /\ In ns (st_children sz))) /\
   (name = None \/ st_name sz = name) /\
   (type = None \/ st_type sz = type).
 
@@ -127,8 +128,9 @@ Definition ostr_eqb (a b : option str) : bool :=
   | _, _ => false
   end.
 
-Definition s_match_stanza (ns name type : option str) (sz : stanza) : bool :=
-  (match ns with None => true | Some _ => ostr_eqb (st_ns sz) ns || existsb (fun c => ostr_eqb c ns) (st_children sz) end)
+Definition s_match_stanza (user : bool) (ns name type : option str) (sz : stanza) : bool :=
+  (match ns with None => true
+   | Some _ => ostr_eqb (st_ns sz) ns || (user && existsb (fun c => ostr_eqb c ns) (st_children sz)) end)
   && (match name with None => true | Some _ => ostr_eqb (st_name sz) name end)
   && (match type with None => true | Some _ => ostr_eqb (st_type sz) type end).
 
@@ -136,7 +138,7 @@ Definition s_match_stanza (ns name type : option str) (sz : stanza) : bool :=
 Definition s_match (k : kind) (r : hrec) (sz : stanza) (now : Z) : bool :=
   match k, r_flt r with
   | KId _, _ => true
-  | KStanza, FStanza ns name type => s_match_stanza ns name type sz
+  | KStanza, FStanza ns name type => s_match_stanza (r_user r) ns name type sz
   | KTimed, FTimed period last => period <=? elapsed last now
   | KGlobal, FTimed period last => period <=? elapsed last now
   | _, _ => false
